@@ -22,6 +22,7 @@ type Profile struct {
 	FlowMutation int // % of flows with a login / callback mutation
 	FaultPct     int // % of flows whose first honest exchange runs while one storage method fails
 	DropPct      int // % of flows during which the client's refresh grant registration is withdrawn
+	HintPct      int // % of flows whose authorization request carries an id_token_hint
 }
 
 var places = []string{"query", "grant-query", "grant-conflict", "field-conflict"}
@@ -81,6 +82,10 @@ type flow struct {
 	granted  []string
 	plan     []string
 	sub      string
+	hint     string
+	hintSub  string
+	prompt   []string
+	maxAge   string
 }
 
 type History struct {
@@ -310,12 +315,35 @@ func (g *gen) newFlow(routerMode int) *flow {
 		g.tag("chal=" + f.method)
 	}
 
+	if g.r.Chance(g.p.HintPct, 100) {
+		f.hint = drv.Pick(g.r, []string{"valid", "valid", "valid", "expired", "expired", "bad"})
+		f.hintSub = drv.Pick(g.r, []string{"alice", "bob"})
+		g.tag("hint=" + f.hint)
+	}
+	switch g.r.IntN(12) {
+	case 0:
+		f.prompt = []string{"login"}
+	case 1:
+		f.prompt = []string{"consent"}
+	case 2:
+		f.prompt = []string{"login", "consent"}
+	case 3:
+		f.prompt = drv.Pick(g.r, [][]string{{"none"}, {"none", "login"}, {"select_account"}})
+	}
+	if len(f.prompt) > 0 {
+		g.tag("prompt=" + strings.Join(f.prompt, "+"))
+	}
+	f.maxAge = drv.Pick(g.r, []string{"", "", "", "0", "3600"})
+
 	// ---- plan
 	plan := []string{"authorize"}
 	mut := g.r.Chance(g.p.FlowMutation, 100)
 	mk := -1
 	if mut {
 		mk = g.r.IntN(5)
+	}
+	if (f.hint == "valid" || f.hint == "expired") && g.r.Chance(2, 3) {
+		mk = g.r.IntN(2) // the request has a subject before anybody logged in: callback before / without login
 	}
 	if mk == 0 {
 		plan = append(plan, "callback") // before login
@@ -368,11 +396,21 @@ func (g *gen) newFlow(routerMode int) *flow {
 	for k := 0; k < nref; k++ {
 		if g.r.Chance(g.p.RefreshAtk, 100) {
 			plan = append(plan, "refresh-attack")
+			if g.r.Bool() {
+				// after a refusal the rightful request must behave as if the refusal never happened:
+				// no scope parameter (everything granted comes back) or all granted scopes by name
+				plan = append(plan, "refresh-verify")
+				continue
+			}
 		}
 		plan = append(plan, "refresh")
 	}
 	if nref > 0 && g.r.Chance(2, 5) {
 		plan = append(plan, drv.Pick(g.r, []string{"refresh-replay", "refresh-attack"}))
+	}
+	if nref > 0 && g.r.Chance(1, 3) {
+		// another, correctly authenticated client presents this flow's token (refused), then the owner
+		plan = append(plan, "refresh-foreign", "refresh-verify")
 	}
 	if g.r.Chance(g.p.DropPct, 100) {
 		// the registration loses the refresh grant while the client may hold a refresh token
@@ -494,7 +532,8 @@ func (g *gen) step(f *flow) {
 	f.plan = f.plan[1:]
 	switch kind {
 	case "authorize":
-		out := g.do(Op{Router: g.rt(f), Kind: "authorize", Client: f.cl.ID, URI: f.uri, Scopes: f.scopes, Nonce: f.nonce, Method: f.method, Chal: f.chal})
+		out := g.do(Op{Router: g.rt(f), Kind: "authorize", Client: f.cl.ID, URI: f.uri, Scopes: f.scopes, Nonce: f.nonce, Method: f.method, Chal: f.chal,
+			Hint: f.hint, HintSub: f.hintSub, Prompt: f.prompt, MaxAge: f.maxAge})
 		f.req = out.Req
 	case "bad-authorize": // no request must come out of these
 		o := Op{Router: g.rt(f), Kind: "authorize", Client: f.cl.ID, URI: f.uri, Scopes: f.scopes, Nonce: f.nonce}
@@ -624,6 +663,29 @@ func (g *gen) step(f *flow) {
 		}
 		o := g.honestRefresh(f)
 		g.settle(f, o, g.do(o))
+	case "refresh-foreign":
+		if last(f.rts) == 0 {
+			return
+		}
+		o := g.honestRefresh(f)
+		o.Cred, o.Mut = legitCred(g.r, g.otherClient(f.cl.ID)), "foreign-client-own-credentials"
+		if g.r.Chance(1, 4) {
+			o.Cred, _ = g.twoIdentities(f.cl)
+		}
+		if d := distinct(f.granted); len(d) >= 2 && g.r.Chance(2, 3) {
+			o.Scopes = subsetOf(g.r, d[:len(d)-1])
+		}
+		g.settle(f, o, g.do(o))
+	case "refresh-verify":
+		if last(f.rts) == 0 {
+			return
+		}
+		o := g.honestRefresh(f)
+		o.Scopes = nil
+		if g.r.Bool() {
+			o.Scopes = append([]string{}, f.granted...)
+		}
+		g.settle(f, o, g.do(o))
 	case "refresh-replay":
 		o := g.honestRefresh(f)
 		if len(f.rts) >= 2 {
@@ -643,6 +705,9 @@ func (g *gen) step(f *flow) {
 		switch pick {
 		case 0, 1, 2:
 			o.Cred, o.Mut = g.badCred(f.cl)
+			if d := distinct(f.granted); len(d) >= 2 && g.r.Bool() { // with a proper subset of the grant
+				o.Scopes = subsetOf(g.r, d[:len(d)-1])
+			}
 		case 3, 4:
 			extra := notIn(f.granted)
 			o.Scopes = append(subsetOf(g.r, f.granted), drv.Pick(g.r, extra))
@@ -689,6 +754,7 @@ func (g *gen) step(f *flow) {
 func Generate(r drv.Rand, p Profile) (*History, error) {
 	var o Options
 	o.NoRefresh = r.Chance(p.RefreshOff, 100)
+	o.LiveGrants = r.Chance(2, 3)
 	o.NoPost = r.Chance(1, 16)
 	o.NoPKJWT = r.Chance(1, 16)
 	ids := []string{"web", "web2", "native", "spa", "pkjwt"}
@@ -706,6 +772,9 @@ func Generate(r drv.Rand, p Profile) (*History, error) {
 	g := &gen{r: r, p: p, w: w, h: h}
 	if o.NoRefresh {
 		g.tag("refresh=off")
+	}
+	if o.LiveGrants {
+		g.tag("grants=live")
 	}
 	if o.NoPost {
 		g.tag("post=off")
